@@ -124,8 +124,23 @@ def main():
 
 
 def _first_para(notes, words):
-    for para in re.split(r"\n\s*\n", notes):
-        if any(w in para.lower() for w in words):
+    """The paragraph(s) of notes.md that say what the change needs in order to manifest: the text below a heading that
+    mentions manifest / trigger / needs, else the first paragraph mentioning one of the words."""
+    paras = [q.strip() for q in re.split(r"\n\s*\n", notes) if q.strip()]
+    for i, para in enumerate(paras):
+        first = para.splitlines()[0]
+        if first.lstrip().startswith("#") and any(w in first.lower() for w in words):
+            body = "\n".join(para.splitlines()[1:]).strip()
+            rest = [body] if body else []
+            for nxt in paras[i + 1:i + 3]:
+                if nxt.lstrip().startswith("#"):
+                    break
+                rest.append(nxt)
+            txt = " ".join(" ".join(rest).split())
+            if txt:
+                return txt[:700]
+    for para in paras:
+        if not para.lstrip().startswith("#") and any(w in para.lower() for w in words):
             return " ".join(para.split())[:700]
     return " ".join(notes.split())[:400]
 
